@@ -123,6 +123,8 @@ pub enum DocForm {
     Comment,
     /// `#[doc = "text"]`
     Attr,
+    /// `#[doc(text)]` — a doc attribute that is not documentation text (hidden, alias = ".."); never part of the documentation
+    Marker,
 }
 
 #[derive(Clone, Debug, PartialEq, Eq, Hash, Serialize, Deserialize)]
@@ -553,6 +555,7 @@ pub fn render_enum(spec: &EnumSpec, derives: &[&str]) -> String {
                 DocForm::Comment if spec.has_syntax("block-docs") && !d.is_empty() && !d.starts_with('*') && !d.starts_with('/') && !d.contains("*/") && !d.contains('\n') => o.push_str(&format!("    /**{}*/\n", d)),
                 DocForm::Comment => o.push_str(&format!("    ///{}\n", d)),
                 DocForm::Attr => o.push_str(&format!("    #[doc = {}]\n", lit_form(d, spec.lit_form()))),
+                DocForm::Marker => o.push_str(&format!("    #[doc({})]\n", d)),
             }
         }
         let items: Vec<String> =
